@@ -235,6 +235,10 @@ async def process_resource_causes(
         operator_paused: aiotoggles.ToggleSet | None,  # None for tests
         consistency_time: float | None,
 ) -> tuple[Collection[float], bool]:
+    # The framework's own finalizer transformations are re-decided below in every cycle against the current view.
+    # Those carried over from a conflicted (HTTP 422) cycle were decided on an older view and can be wrong by now.
+    finalizer_fns = (finalizers.block_deletion, finalizers.allow_deletion)
+    patch.fns[:] = [fn for fn in patch.fns if getattr(fn, 'func', None) not in finalizer_fns]
     patch_initially_empty = not patch  # before we add new things in low-level handlers
 
     finalizer = settings.persistence.finalizer
